@@ -27,6 +27,14 @@ the same requests in the same order must report identical decisions and latencie
 an ARBITRARY decision stream per service (`TR.Chaos.runD`), of which `decideG` threaded over a lawful generator
 is one instance (`TR.Chaos.decideG_allowed`).
 
+The event log. Besides the events of the common vocabulary (inner calls, results) the log holds the line
+`first_poll <c> svc=<k>`, printed by the HARNESS when it polls the call future of request `c` for the first time (before
+the poll; it depends on nothing the layer reports) — the instant at which the decision of the request is taken. With it
+the injected latency is an observable of the compared log: instant of the `inner_call` line − instant of the `first_poll`
+line. `State.tlog` is the log typed and with its instants (`TEv`, stamped with `now` at the moment of emission = the
+`t=` the driver prints); `State.log` is its rendering. The theorems of `TR.Props.C19` about decisions, latencies and the
+extremes are stated over `tlog` (`TR.Lemmas.ChaosTrace`).
+
 Several services built from one layer value (`arrive c svc=<k> …`): the seeded stream is per SERVICE
 (`Chaos::new` → `config.create_rng()`), shared by the clones of that service and by nothing else. The machine
 keeps the decisions per service (`State.decs : List (svc × Decision)`, `decsOn`).
@@ -108,6 +116,21 @@ inductive Phase
   | done
 deriving DecidableEq, Repr, Inhabited
 
+/-- A line of the event log, typed: an event of the common vocabulary, or the line the harness prints when it polls the
+call future of request `c` (made on service `svc`) for the FIRST time — `first_poll <c> svc=<svc>`. The harness prints
+it itself (it knows when it polls a future for the first time), before the poll: it does not depend on anything the
+layer reports. With it the log shows the instant the decision of a request is taken, so the injected latency is an
+observable: instant of the `inner_call` line − instant of the `first_poll` line. -/
+inductive TEv
+  | firstPoll (c svc : Nat)
+  | ev (e : Ev)
+deriving DecidableEq, Repr, Inhabited
+
+/-- the line as it is rendered and compared -/
+def TEv.toEv : TEv → Ev
+  | .firstPoll c k => .raw s!"first_poll {c} svc={k}"
+  | .ev e => e
+
 structure State where
   now    : Nat := 0
   phase  : List (Nat × Phase) := []
@@ -116,6 +139,9 @@ structure State where
   decOf  : List (Nat × Decision) := []    -- ghost: decision per caller
   gone   : Bool := false                  -- `manual dropsvc`: the caller has dropped every handle of the service
   log    : List Ev := []
+  /-- the event log with its instants, typed: every line of `log`, in order, stamped with the instant at which it was
+  emitted (= the `t=` the driver prints: `TR.Chaos.trace_is_the_log`, `TR.Chaos.stamps_are_the_drivers`) -/
+  tlog   : List (Nat × TEv) := []
 deriving Repr
 
 inductive Op
@@ -126,7 +152,11 @@ inductive Op
   | dropsvc                               -- the caller drops every handle of the service, and the layer
 deriving Repr
 
-def emit (s : State) (evs : List Ev) : State := { s with log := s.log ++ evs }
+def emit (s : State) (evs : List Ev) : State :=
+  { s with log := s.log ++ evs, tlog := s.tlog ++ evs.map (fun e => (s.now, TEv.ev e)) }
+/-- the harness's line `first_poll c svc=k` -/
+def mark (s : State) (c k : Nat) : State :=
+  { s with log := s.log ++ [(TEv.firstPoll c k).toEv], tlog := s.tlog ++ [(s.now, TEv.firstPoll c k)] }
 def setPhase (s : State) (c : Nat) (p : Phase) : State := { s with phase := (c, p) :: s.phase }
 def known (s : State) (c : Nat) : Bool := (lookup s.phase c).isSome
 
@@ -166,9 +196,10 @@ def enact (s : State) (c tag : Nat) (st : Step) : Decision → State
   | .latency ms => pollSleeping (setPhase s c (.sleeping (s.now + ms) st)) c (s.now + ms) st
   | .pass => startInner s c st
 
-/-- first poll: the decision (observed, checked against the boundary clauses), then error / sleep / inner call -/
+/-- first poll: the harness's `first_poll` line, then the decision (observed, checked against the boundary clauses),
+then error / sleep / inner call -/
 def pollFresh (cfg : Cfg) (s : State) (c k tag : Nat) (st : Step) (dec : Decision) : State :=
-  enact (record (checked cfg s dec) c k dec) c tag st dec
+  enact (record (checked cfg (mark s c k) dec) c k dec) c tag st dec
 
 def stepS (cfg : Cfg) (s : State) (op : Op) : State :=
   match op with
